@@ -132,35 +132,56 @@ func Load(repoDir, verifDir string) (*Loaded, error) {
 		}
 		return nil, fmt.Errorf("import %q not loaded", path)
 	})
-	// generate clause functions against the first type-check
-	gen, err := generateClauses(L, root, cf)
-	if err != nil {
-		return nil, err
-	}
-	L.GenSrc = gen
+	// generate clause functions against the first type-check; clauses that no
+	// longer type-check against the code (contract drift) are dropped and reported
+	var spkg *ssa.Package
+	var info *types.Info
+	var tpkg *types.Package
+	var files []*ast.File
+	var gen string
 	genName := filepath.Join(repoDir, "zz_verif_clauses.go")
-	genFile, err := parser.ParseFile(root.Fset, genName, gen, parser.ParseComments)
-	if err != nil {
-		return nil, fmt.Errorf("generated clause file does not parse: %v\n%s", err, numbered(gen))
-	}
-	files := append([]*ast.File{}, root.Syntax...)
-	files = append(files, genFile)
-
-	var tcErrs []string
-	tc := &types.Config{
-		Importer: importerFunc(func(path string) (*types.Package, error) {
-			if p, ok := depTypes[path]; ok {
-				return p, nil
+	dropped := map[string]bool{}
+	for attempt := 0; ; attempt++ {
+		var err error
+		gen, err = generateClauses(L, root, cf, dropped)
+		if err != nil {
+			return nil, err
+		}
+		L.GenSrc = gen
+		fset2 := root.Fset
+		genFile, err := parser.ParseFile(fset2, genName, gen, parser.ParseComments)
+		if err != nil {
+			return nil, fmt.Errorf("generated clause file does not parse: %v\n%s", err, numbered(gen))
+		}
+		files = append([]*ast.File{}, root.Syntax...)
+		files = append(files, genFile)
+		var tcErrs []string
+		tc := &types.Config{
+			Importer: L.importer,
+			Error:    func(err error) { tcErrs = append(tcErrs, err.Error()) },
+			Sizes:    root.TypesSizes,
+		}
+		tpkg = types.NewPackage(pkgPath, "restful")
+		spkg, info, err = ssautil.BuildPackage(tc, fset2, tpkg, files, ssa.NaiveForm|ssa.GlobalDebug|ssa.InstantiateGenerics)
+		if err == nil && len(tcErrs) == 0 {
+			break
+		}
+		// which clause functions are broken?
+		bad := badClauses(tcErrs, gen, genName)
+		if len(bad) == 0 || attempt >= 6 {
+			return nil, fmt.Errorf("contracts do not type-check:\n%s", explainGenErrors(tcErrs, gen, genName, cf))
+		}
+		progress := false
+		for fnName, why := range bad {
+			if !dropped[fnName] {
+				dropped[fnName] = true
+				progress = true
+				noteDrift(cf, fnName, why)
 			}
-			return nil, fmt.Errorf("import %q not loaded", path)
-		}),
-		Error: func(err error) { tcErrs = append(tcErrs, err.Error()) },
-		Sizes: root.TypesSizes,
-	}
-	tpkg := types.NewPackage(pkgPath, "restful")
-	spkg, info, err := ssautil.BuildPackage(tc, root.Fset, tpkg, files, ssa.NaiveForm|ssa.GlobalDebug|ssa.InstantiateGenerics)
-	if err != nil || len(tcErrs) > 0 {
-		return nil, fmt.Errorf("contracts do not type-check:\n%s", explainGenErrors(tcErrs, gen, genName, cf))
+		}
+		if !progress {
+			return nil, fmt.Errorf("contracts do not type-check:\n%s", explainGenErrors(tcErrs, gen, genName, cf))
+		}
 	}
 	L.Pkg = tpkg
 	L.Info = info
@@ -218,6 +239,41 @@ func (L *Loaded) IsSpecFunc(fn *ssa.Function) bool {
 	}
 	name := L.Fset.Position(pos).Filename
 	return L.SpecFiles[name] || strings.HasSuffix(name, "zz_verif_clauses.go")
+}
+
+// badClauses maps type-check errors in the generated file to the clause functions they are in.
+func badClauses(errs []string, gen, genName string) map[string]string {
+	lines := strings.Split(gen, "\n")
+	out := map[string]string{}
+	for _, e := range errs {
+		if !strings.HasPrefix(e, genName+":") {
+			continue
+		}
+		var ln int
+		fmt.Sscanf(e[len(genName)+1:], "%d", &ln)
+		for k := ln - 1; k >= 0 && k > ln-6; k-- {
+			if k < len(lines) && strings.HasPrefix(lines[k], "func verif_cl_") {
+				name := lines[k][5:]
+				if i := strings.Index(name, "("); i >= 0 {
+					name = name[:i]
+				}
+				out[name] = e[len(genName)+1:]
+				break
+			}
+		}
+	}
+	return out
+}
+
+func noteDrift(cf *ContractFile, goName, why string) {
+	for _, n := range cf.Order {
+		c := cf.Contracts[n]
+		for _, cl := range c.AllClauses() {
+			if cl.GoName == goName {
+				c.Drift = append(c.Drift, fmt.Sprintf("%s %s: %s", cl.Kind, cl.Label, why))
+			}
+		}
+	}
 }
 
 func numbered(src string) string {
@@ -745,7 +801,7 @@ func (g *genCtx) qual(p *types.Package) string {
 	return p.Name()
 }
 
-func generateClauses(L *Loaded, root *packages.Package, cf *ContractFile) (string, error) {
+func generateClauses(L *Loaded, root *packages.Package, cf *ContractFile, dropped map[string]bool) (string, error) {
 	g := &genCtx{imports: map[string]string{}}
 	n := 0
 	pkgScope := root.Types.Scope()
@@ -800,7 +856,10 @@ func generateClauses(L *Loaded, root *packages.Package, cf *ContractFile) (strin
 			}
 			if cl.Kind == "invariant" {
 				if cl.Loop < 0 || cl.Loop >= len(site.loops) {
-					return "", fmt.Errorf("verif_contracts.go:%d: %s has %d loops, no loop %d (contract drift)", cl.Line, fname, len(site.loops), cl.Loop)
+					c.Drift = append(c.Drift, fmt.Sprintf("invariant %s: the function has %d loops, no loop %d", cl.Label, len(site.loops), cl.Loop))
+					delete(c.Invariants, cl.Loop)
+					n--
+					continue
 				}
 				switch s := site.loops[cl.Loop].(type) {
 				case *ast.ForStmt:
@@ -863,7 +922,11 @@ func generateClauses(L *Loaded, root *packages.Package, cf *ContractFile) (strin
 				}
 				fmt.Fprintf(&g.b, "%s %s", p.Name, ptypes[i])
 			}
-			fmt.Fprintf(&g.b, ") bool {\n\treturn %s\n}\n\n", cl.Expr)
+			body := cl.Expr
+			if dropped[cl.GoName] {
+				body = "false /* clause dropped: no longer type-checks against the code (contract drift) */"
+			}
+			fmt.Fprintf(&g.b, ") bool {\n\treturn %s\n}\n\n", body)
 		}
 	}
 	var tinames []string
